@@ -133,6 +133,21 @@ pub open spec fn min_fields_from(f: Seq<(Seq<char>, MV)>, i: int) -> nat
     if i < 0 || i >= f.len() { 0 } else if f[i].1 is Dyn { min_wire_len(f[i].1) } else { min_wire_len(f[i].1) + min_fields_from(f, i + 1) }
 }
 
+/// no Array inside holds elements yet (Array::read APPENDS to what is already there: the consumption bound below is for fresh layouts)
+pub open spec fn arrays_empty(m: MV) -> bool
+    decreases m
+{
+    match m {
+        MV::Trame(s) => forall|i: int| 0 <= i < s.len() ==> arrays_empty(#[trigger] s[i]),
+        MV::Comp(f) => forall|i: int| 0 <= i < f.len() ==> arrays_empty((#[trigger] f[i]).1),
+        MV::Check(b) => arrays_empty(*b),
+        MV::Opt(o) => match o { Some(b) => arrays_empty(*b), None => true },
+        MV::Dyn(b, _) => arrays_empty(*b),
+        MV::Arr(s, p) => s.len() == 0 && arrays_empty(*p),
+        _ => true,
+    }
+}
+
 pub enum MessageOption {
     SkipField(String),
     Size(String, usize),
@@ -179,6 +194,8 @@ pub open spec fn dt_matches(d: DataType, m: MV) -> bool
 
 pub trait Message: Sized {
     spec fn mv(&self) -> MV;
+    /// every option options() can ever return for this object (a DynOption: every possible result of its closure); leaves: only None
+    open spec fn ov_range(&self) -> Set<OV> { set![OV::None] }
 
     fn write<W: Write>(&self, writer: &mut W) -> (r: RdpResult<()>)
         ensures
@@ -197,7 +214,9 @@ pub trait Message: Sized {
                 &&& final(reader).rest() == old(reader).rest().skip(n)
             }),
             r is Ok && is_plain(old(self).mv()) ==> old(reader).rest() == ser(final(self).mv()) + final(reader).rest(),
-            r is Ok ==> old(reader).rest().len() >= final(reader).rest().len() + min_wire_len(old(self).mv());
+            r is Ok ==> old(reader).rest().len() >= final(reader).rest().len() + min_wire_len(old(self).mv()),
+            // what was read was consumed: every non-skipped field took at least its own serialization from the stream
+            r is Ok && arrays_empty(old(self).mv()) ==> ser(final(self).mv()).len() + final(reader).rest().len() <= old(reader).rest().len();
 
     fn length(&self) -> (r: u64)
         ensures r == ser(self.mv()).len();
@@ -215,15 +234,17 @@ pub struct Field { _p: () }
 
 impl Field {
     pub uninterp spec fn fview(&self) -> MV;
+    pub uninterp spec fn frange(&self) -> Set<OV>;
 
     #[verifier::external_body]
     pub fn of<M: Message>(m: Box<M>) -> (r: Field)
-        ensures r.fview() == m.mv()
+        ensures r.fview() == m.mv(), r.frange() == m.ov_range()
     { unimplemented!() }
 }
 
 impl Message for Field {
     open spec fn mv(&self) -> MV { self.fview() }
+    open spec fn ov_range(&self) -> Set<OV> { self.frange() }
     #[verifier::external_body]
     fn write<W: Write>(&self, writer: &mut W) -> (r: RdpResult<()>) { unimplemented!() }
     #[verifier::external_body]
@@ -271,17 +292,23 @@ pub open spec fn first_key(f: Seq<(Seq<char>, MV)>, k: Seq<char>) -> int {
 
 impl Component {
     pub uninterp spec fn fields(&self) -> Seq<(Seq<char>, MV)>;
+    /// per field: every option that field can ever yield
+    pub uninterp spec fn ranges(&self) -> Seq<Set<OV>>;
+    /// TRUSTED invariant of every Component: the option a field yields now is one of those it can yield (the engine obtains it by calling the field's closure)
+    pub broadcast axiom fn axiom_ranges(&self)
+        ensures #[trigger] self.ranges().len() == self.fields().len(),
+            forall|i: int| 0 <= i < self.fields().len() ==> #[trigger] self.ranges()[i].contains(opt_of(self.fields()[i].1));
 
     #[verifier::external_body]
     pub fn new() -> (r: Self)
-        ensures r.fields() == Seq::<(Seq<char>, MV)>::empty()
+        ensures r.fields() == Seq::<(Seq<char>, MV)>::empty(), r.ranges() == Seq::<Set<OV>>::empty()
     { unimplemented!() }
 
     /// IndexMap::insert of a key not yet present (distinctness of the literal keys of one component! is
     /// checked syntactically by the extractor): appended at the end.
     #[verifier::external_body]
     pub fn insert<M: Message>(&mut self, k: String, v: Box<M>) -> (r: Option<Field>)
-        ensures final(self).fields() == old(self).fields().push((k@, v.mv()))
+        ensures final(self).fields() == old(self).fields().push((k@, v.mv())), final(self).ranges() == old(self).ranges().push(v.ov_range())
     { unimplemented!() }
 }
 
@@ -290,7 +317,9 @@ impl Message for Component {
     #[verifier::external_body]
     fn write<W: Write>(&self, writer: &mut W) -> (r: RdpResult<()>) { unimplemented!() }
     #[verifier::external_body]
-    fn read<R: Read>(&mut self, reader: &mut R) -> (r: RdpResult<()>) { unimplemented!() }
+    fn read<R: Read>(&mut self, reader: &mut R) -> (r: RdpResult<()>)
+        ensures final(self).ranges() == old(self).ranges()
+    { unimplemented!() }
     #[verifier::external_body]
     fn length(&self) -> (r: u64) { unimplemented!() }
     #[verifier::external_body]
@@ -344,6 +373,7 @@ pub struct DynOption<T> { inner: T }
 
 impl<T: Message> DynOption<T> {
     pub uninterp spec fn dview(&self) -> MV;
+    pub uninterp spec fn drange(&self) -> Set<OV>;
 
     /// the closure must be callable for EVERY inner value of the same layout (the engine runs it on whatever the peer sent
     /// into that layout); its result for the current value is recorded
@@ -352,12 +382,14 @@ impl<T: Message> DynOption<T> {
         requires forall|t: &T| same_shape(current.mv(), t.mv()) ==> #[trigger] call_requires(filter, (t,))
         ensures
             r.dview() matches MV::Dyn(b, o) && *b == current.mv()
-                && (exists|mo: MessageOption| #![auto] call_ensures(filter, (&current,), mo) && mo.ov() == o)
+                && (exists|mo: MessageOption| #![auto] call_ensures(filter, (&current,), mo) && mo.ov() == o),
+            forall|o: OV| #[trigger] r.drange().contains(o) ==> exists|t: T, mo: MessageOption| #![auto] same_shape(current.mv(), t.mv()) && call_ensures(filter, (&t,), mo) && mo.ov() == o
     { unimplemented!() }
 }
 
 impl<T: Message> Message for DynOption<T> {
     open spec fn mv(&self) -> MV { self.dview() }
+    open spec fn ov_range(&self) -> Set<OV> { self.drange() }
     #[verifier::external_body]
     fn write<W: Write>(&self, writer: &mut W) -> (r: RdpResult<()>) { unimplemented!() }
     #[verifier::external_body]
